@@ -52,7 +52,7 @@ func (dp decProp) judge(t *rapid.T, st *propStats, sub string, x *decExec) {
 	for i := 0; i < x.excludedD14; i++ {
 		st.exclude("D14:item>BufferSize-WindowSize")
 	}
-	if x.dead {
+	if x.dead && !x.stuckEnd {
 		why := sub
 		if len(x.findings) > 0 {
 			why += ":" + x.findings[0].prop
@@ -62,6 +62,9 @@ func (dp decProp) judge(t *rapid.T, st *propStats, sub string, x *decExec) {
 	}
 	cl, nt := dp.classify(x)
 	cl = append(cl, "vehicle:"+sub)
+	if x.stuckEnd {
+		cl = append(cl, "ended-at-a-writer-that-fails-for-good")
+	}
 	c := x.Case()
 	st.eval(cl, nt, hashJSON(c), sub, func() any { return c })
 }
